@@ -14,10 +14,11 @@ R = random.Random(seed)
 def q(s): return '"' + s.replace('"', '""') + '"'
 
 CANON = ['{\n  a = 1;\n}\n', '{ a = 1; }\n', '{ pkgs }:\n{\n  a = 1;\n  b = {\n    c = "x";\n  };\n}\n', 'let\n  v = 1;\nin\n{\n  a = v;\n}\n',
-         '# header\n{\n  a = [\n    1\n    2\n  ];\n  # note\n  b.c = true;\n}\n', '{ }\n', '{\n  a = 1;\n}', '{ a = 1; }', '{\n  a = 1;\n}\n\n']
+         '# header\n{\n  a = [\n    1\n    2\n  ];\n  # note\n  b.c = true;\n}\n', '{ }\n', '{\n  a = 1;\n}', '{ a = 1; }', '{\n  a = 1;\n}\n\n',
+         '{ a.b.c = 1; }\n', '{\n  a.b.c.d = 1;\n}\n', 'let\n  x.y.z = 1;\nin\n{ a = 1; }\n', '{\n  a.b.c = 1;\n  a.b.d = 2;\n}\n']        # tenth round: removing the only leaf of a long attrpath
 NONCANON = ['\ufeff{ a = 1; }\n', '\ufeff{\n  a = 1;\n}\n', '{ a = 1; }\r\n', '{\r\n  a = 1;\r\n}\r\n', '{ a = "é→"; }\n', '{a=1;}', '{ a   =  1 ; }\n', '{\n\ta = 1;\n}\n', '\n{ a = 1; }\n', '{ a = 1; }   ', '{\n  a = 1;\n\n\n  b = 2;\n}\n', '[ 1 2 ]\n', 'x: x\n', '1\n']
 BROKEN = ['{ a = 1 }', '{\n  a = 1;\n  b = 2\n}\n', '{ a = [ 1 2; }', 'a.${b', '{ a, , b }: { a = 1; }\n', '{ a = 1;', '{ a = ; }\n', '{ a = 1; }}\n', 'let in', '{ a = 1 }\n', ')(', '{ a = "x; }\n', '\n\n{ a = 1; \n', '  { a = [ 1; }  \n', '']
-PATHS = ['"a${"', '"${"', 'b."x${"', '"$"', '"a$"', '"\\${"', 'a', 'b', 'b.c', 'z', 'a.b', '"a"', 'a..b', '', '@v', '@w', '@@v', '"q', 'x.y.z', 'é', '"é"', 'b\n', 'a\n', 'a.b\n', '@b\n', ' b', 'b ', 'b\t', 'b\r']
+PATHS = ['a.b.c', 'a.b.c.d', '@x.y.z', 'a.b.d', '"a${"', '"${"', 'b."x${"', '"$"', '"a$"', '"\\${"', 'a', 'b', 'b.c', 'z', 'a.b', '"a"', 'a..b', '', '@v', '@w', '@@v', '"q', 'x.y.z', 'é', '"é"', 'b\n', 'a\n', 'a.b\n', '@b\n', ' b', 'b ', 'b\t', 'b\r']
 VALUES = ['2', '"s"', '[ 1 2 ]', '{ k = 1; }', '1 +', '', '1 2', 'x: x', '# c', '"é"']
 def text():
     r = R.random()
@@ -29,7 +30,7 @@ cases = []
 for t in CANON: cases += [{'cmd': cm, 'text': t, 'kind': 'canonical', 'npath': 'a', 'value': '2'} for cm in ('test', 'set', 'rm')]
 for t in NONCANON: cases += [{'cmd': cm, 'text': t, 'kind': 'noncanonical', 'npath': 'a', 'value': '2'} for cm in ('test', 'set')]
 # … and every path spelling under test as a set and an rm on two canonical documents (ninth round: a spelling met only by chance is a spelling missed)
-for t in (CANON[0], CANON[2]):
+for t in (CANON[0], CANON[2], CANON[9], CANON[10], CANON[11], CANON[12]):
     for pth in PATHS: cases += [{'cmd': 'set', 'text': t, 'kind': 'canonical', 'npath': pth, 'value': '2'}, {'cmd': 'rm', 'text': t, 'kind': 'canonical', 'npath': pth, 'value': '2'}]
 for _ in range(N):
     t, kind = text()
